@@ -69,7 +69,7 @@ TABLE = {
 }
 
 # checks that are finished, validated on the unchanged tree and committed
-READY = {'C01', 'C07', 'C02', 'C03', 'C04', 'C05', 'C08', 'C09', 'C10', 'C11', 'C12', 'C13', 'C14', 'C15', 'C16', 'C17', 'C18', 'C19', 'C20'}
+READY = {'C01', 'C06', 'C07', 'C02', 'C03', 'C04', 'C05', 'C08', 'C09', 'C10', 'C11', 'C12', 'C13', 'C14', 'C15', 'C16', 'C17', 'C18', 'C19', 'C20'}
 
 PENDING_REASON = 'check not built yet in this session (designed in DESIGN.md section 4); nothing is claimed for it'
 
